@@ -1,7 +1,7 @@
 #!/bin/sh
 # usage: tools/allseeds.sh [prefix]   (apply every stored seeded change [whose name starts with prefix] in turn, run the quick check of its property, undo)
 cd /verif
-for d in seeded/${1:-[stuvwx][0-9]}*; do
+for d in seeded/${1:-[stuvwxy][0-9]}*; do
   n=$(basename $d)
   p=$(python3 -c "import json;print(json.load(open('$d/meta.json'))['property'])")
   if git -C /repo apply /verif/$d/patch.diff 2>/dev/null; then
